@@ -13,9 +13,13 @@ import (
 	"io"
 	"os"
 	"path/filepath"
+	"regexp"
 	"sort"
+	"strconv"
 	"strings"
 	"testing"
+
+	gregexp "github.com/grafana/regexp"
 
 	"github.com/sourcegraph/zoekt"
 	"github.com/sourcegraph/zoekt/query"
@@ -23,6 +27,8 @@ import (
 
 var vfC17Files = []string{"f00.txt", "f01.txt", "f02.txt", "dir/f03.txt", "dir/f04.go", "f05.md"}
 var vfC17Words = []string{"alpha", "bravo", "charlie", "delta", "echo", "foxtrot"}
+var vfC17Fields = []string{"team", "tier"}
+var vfC17Vals = []string{"red", "green", "blue"}
 
 type vfC17Doc struct {
 	repo  int
@@ -39,13 +45,34 @@ type vfC17Tpl struct {
 
 func vfC17NameID(name string) uint64 {
 	var k uint64
+	// "repo-<k>" -> 2k, "renamed-<k>" -> 2k+1 (Model/Tombstone.v name_re relies on this coding)
 	if _, err := fmt.Sscanf(name, "repo-%d", &k); err == nil {
-		return k
+		return 2 * k
 	}
 	if _, err := fmt.Sscanf(name, "renamed-%d", &k); err == nil {
-		return 100 + k
+		return 2*k + 1
 	}
-	return 999
+	return 1999999
+}
+
+func vfC17Idx(xs []string, x string) uint64 {
+	for i, y := range xs {
+		if y == x {
+			return uint64(i)
+		}
+	}
+	return 99
+}
+
+func vfC17MetaTerm(r *zoekt.Repository) string {
+	if len(r.Metadata) == 0 {
+		return "[]"
+	}
+	var ts []string
+	for _, k := range vfSortedKeys(r.Metadata) {
+		ts = append(ts, cTuple(cN(vfC17Idx(vfC17Fields, k)), cN(vfC17Idx(vfC17Vals, r.Metadata[k]))))
+	}
+	return cList(ts)
 }
 
 func vfC17FileID(name string) uint64 {
@@ -75,7 +102,7 @@ func vfC17RepoTerm(r *zoekt.Repository) string {
 		ft = append(ft, vfC17FileID(k))
 	}
 	sort.Slice(ft, func(i, j int) bool { return ft[i] < ft[j] })
-	return cTuple(cN(uint64(r.ID)), cN(vfC17NameID(r.Name)), cBool(r.Tombstone), cNList(ft), cN(vfC17Other(r)))
+	return cTuple(cN(uint64(r.ID)), cN(vfC17NameID(r.Name)), cBool(r.Tombstone), cNList(ft), vfC17MetaTerm(r), cN(vfC17Other(r)))
 }
 
 func vfC17ReposTerm(rs []*zoekt.Repository) string {
@@ -93,9 +120,11 @@ func vfC17BuildTemplate(t *testing.T, r *vfRand, dir string, k int) *vfC17Tpl {
 	if err := os.MkdirAll(dir, 0o755); err != nil {
 		t.Fatal(err)
 	}
-	nrepos := 1 + r.Intn(4)
-	if r.Chance(25) {
+	nrepos := 3 + r.Intn(3) // mostly >= 3 repositories: the result-isolation clause needs a third, unrelated repository
+	if c := r.Intn(100); c < 12 {
 		nrepos = 1
+	} else if c < 25 {
+		nrepos = 2
 	}
 	content := map[string][]int{}
 	var simple []string
@@ -107,6 +136,14 @@ func vfC17BuildTemplate(t *testing.T, r *vfRand, dir string, k int) *vfC17Tpl {
 			Branches: []zoekt.RepositoryBranch{{Name: "HEAD", Version: fmt.Sprintf("v%d", i)}}}
 		if r.Chance(15) {
 			repo.FileTombstones = map[string]struct{}{r.Pick(vfC17Files): {}}
+		}
+		if r.Chance(65) {
+			repo.Metadata = map[string]string{}
+			for _, f := range vfC17Fields {
+				if r.Chance(70) {
+					repo.Metadata[f] = r.Pick(vfC17Vals)
+				}
+			}
 		}
 		b, err := NewShardBuilder(repo)
 		if err != nil {
@@ -205,15 +242,138 @@ func vfC17BuildTemplate(t *testing.T, r *vfRand, dir string, k int) *vfC17Tpl {
 	return tpl
 }
 
-func vfC17GenQuery(r *vfRand, depth int, names []string) (query.Q, string, string) {
+type vfC17Q struct {
+	q    query.Q
+	coq  string
+	desc string
+	// Go-side reference semantics of the query as written: does document d of repository rp satisfy it?
+	ref func(rp *zoekt.Repository, d vfC17Doc) bool
+}
+
+func vfC17U64s(xs []uint32) []uint64 {
+	out := make([]uint64, len(xs))
+	for i, x := range xs {
+		out[i] = uint64(x)
+	}
+	return out
+}
+
+// vfC17RepoAtom: a repository-level filter (Repo / RepoRegexp / RepoSet / RepoIDs / Meta). ids = the ids of the
+// shard's repositories ("repo-<id>" is the embedded name, "renamed-<id>" what a seeded sidecar may rename it to).
+func vfC17RepoAtom(r *vfRand, ids []uint32) vfC17Q {
+	// a subset of the shard's repositories (often all but one / exactly as many as may be alive), sometimes plus a foreign id
+	var sub []uint32
+	switch c := r.Intn(100); {
+	case c < 20:
+		sub = append(sub, ids...)
+		if len(sub) > 1 {
+			k := r.Intn(len(sub))
+			sub = append(sub[:k], sub[k+1:]...)
+		}
+	case c < 30:
+		sub = append(sub, ids...)
+	default:
+		for _, id := range ids {
+			if r.Chance(50) {
+				sub = append(sub, id)
+			}
+		}
+	}
+	if r.Chance(15) || len(sub) == 0 {
+		sub = append(sub, 9999)
+	}
+	has := func(id uint32) bool {
+		for _, x := range sub {
+			if x == id {
+				return true
+			}
+		}
+		return false
+	}
+	switch c := r.Intn(100); {
+	case c < 25: // RepoSet over names (embedded and/or renamed)
+		set := map[string]bool{}
+		var nids []uint64
+		for _, id := range sub {
+			m := r.Intn(3)
+			if m != 1 {
+				n := fmt.Sprintf("repo-%d", id)
+				set[n] = true
+				nids = append(nids, vfC17NameID(n))
+			}
+			if m != 0 {
+				n := fmt.Sprintf("renamed-%d", id)
+				set[n] = true
+				nids = append(nids, vfC17NameID(n))
+			}
+		}
+		return vfC17Q{&query.RepoSet{Set: set}, "(CRepoSet " + cNList(nids) + ")", fmt.Sprint("reposet ", vfSortedKeys(set)),
+			func(rp *zoekt.Repository, _ vfC17Doc) bool { return set[rp.Name] }}
+	case c < 50: // RepoIDs
+		q := query.NewRepoIDs(sub...)
+		return vfC17Q{q, "(CRepoIDs " + cNList(vfC17U64s(sub)) + ")", fmt.Sprint("repoids ", sub),
+			func(rp *zoekt.Repository, _ vfC17Doc) bool { return has(rp.ID) }}
+	case c < 80: // repo: / RepoRegexp
+		pre := r.Intn(3)
+		var nums []uint32
+		if r.Chance(80) || pre == 0 {
+			nums = sub
+		}
+		pat := []string{"-", "^repo-", "^renamed-"}[pre]
+		if len(nums) > 0 {
+			var alts []string
+			for _, x := range nums {
+				alts = append(alts, strconv.Itoa(int(x)))
+			}
+			pat += "(?:" + strings.Join(alts, "|") + ")$"
+		}
+		ref := regexp.MustCompile(pat) // reference: the standard library's engine on the name
+		var q query.Q
+		if r.Bool() {
+			q = &query.Repo{Regexp: gregexp.MustCompile(pat)}
+		} else {
+			q = &query.RepoRegexp{Regexp: gregexp.MustCompile(pat)}
+		}
+		nl := "[]"
+		if len(nums) > 0 {
+			nl = cNList(vfC17U64s(nums))
+		}
+		return vfC17Q{q, "(CRepoRe " + cN(uint64(pre)) + " " + nl + ")", "repo:" + pat,
+			func(rp *zoekt.Repository, _ vfC17Doc) bool { return ref.MatchString(rp.Name) }}
+	default: // Meta
+		f := r.Intn(len(vfC17Fields))
+		var vs []uint64
+		var alts []string
+		for i, v := range vfC17Vals {
+			if r.Chance(50) {
+				vs = append(vs, uint64(i))
+				alts = append(alts, v)
+			}
+		}
+		if len(vs) == 0 {
+			vs, alts = []uint64{0}, []string{vfC17Vals[0]}
+		}
+		pat := "^(?:" + strings.Join(alts, "|") + ")$"
+		ref := regexp.MustCompile(pat)
+		field := vfC17Fields[f]
+		return vfC17Q{&query.Meta{Field: field, Value: gregexp.MustCompile(pat)}, "(CMeta " + cN(uint64(f)) + " " + cNList(vs) + ")",
+			"meta." + field + ":" + pat,
+			func(rp *zoekt.Repository, _ vfC17Doc) bool {
+				v, ok := rp.Metadata[field]
+				return ok && ref.MatchString(v)
+			}}
+	}
+}
+
+func vfC17GenQuery(r *vfRand, depth int, names []string, ids []uint32) vfC17Q {
 	c := r.Intn(100)
 	switch {
 	case c < 8:
 		b := r.Bool()
-		return &query.Const{Value: b}, "(CConst " + cBool(b) + ")", fmt.Sprint("const ", b)
-	case c < 35 || (depth == 0 && c < 55):
+		return vfC17Q{&query.Const{Value: b}, "(CConst " + cBool(b) + ")", fmt.Sprint("const ", b), func(*zoekt.Repository, vfC17Doc) bool { return b }}
+	case c < 14:
 		set := map[string]bool{}
-		var ids []uint64
+		var nids []uint64
 		n := 1 + r.Intn(3)
 		if r.Chance(25) { // (almost) every name: simplifyMultiRepo's Const(true) case
 			n = 3 * len(names)
@@ -222,34 +382,43 @@ func vfC17GenQuery(r *vfRand, depth int, names []string) (query.Q, string, strin
 			nm := r.Pick(names)
 			if !set[nm] {
 				set[nm] = true
-				ids = append(ids, vfC17NameID(nm))
+				nids = append(nids, vfC17NameID(nm))
 			}
 		}
-		return &query.RepoSet{Set: set}, "(CRepoSet " + cNList(ids) + ")", fmt.Sprint("reposet ", vfSortedKeys(set))
-	case c < 50 || (depth == 0 && c < 70):
+		return vfC17Q{&query.RepoSet{Set: set}, "(CRepoSet " + cNList(nids) + ")", fmt.Sprint("reposet ", vfSortedKeys(set)),
+			func(rp *zoekt.Repository, _ vfC17Doc) bool { return set[rp.Name] }}
+	case c < 42 || (depth == 0 && c < 58):
+		return vfC17RepoAtom(r, ids)
+	case c < 54 || (depth == 0 && c < 72):
 		fi := r.Intn(len(vfC17Files))
-		return &query.Substring{Pattern: vfC17Files[fi], FileName: true, CaseSensitive: true}, "(CFile " + cN(uint64(fi)) + ")", "file:" + vfC17Files[fi]
+		return vfC17Q{&query.Substring{Pattern: vfC17Files[fi], FileName: true, CaseSensitive: true}, "(CFile " + cN(uint64(fi)) + ")", "file:" + vfC17Files[fi],
+			func(_ *zoekt.Repository, d vfC17Doc) bool { return d.file == fi }}
 	case c < 70 || depth == 0:
 		wi := r.Intn(len(vfC17Words))
-		return &query.Substring{Pattern: vfC17Words[wi], Content: true, CaseSensitive: true}, "(CWord " + cN(uint64(wi)) + ")", "content:" + vfC17Words[wi]
+		return vfC17Q{&query.Substring{Pattern: vfC17Words[wi], Content: true, CaseSensitive: true}, "(CWord " + cN(uint64(wi)) + ")", "content:" + vfC17Words[wi],
+			func(_ *zoekt.Repository, d vfC17Doc) bool {
+				for _, w := range d.words {
+					if w == wi {
+						return true
+					}
+				}
+				return false
+			}}
 	case c < 80:
-		q, s, d := vfC17GenQuery(r, depth-1, names)
-		return &query.Not{Child: q}, "(CNot " + s + ")", "(not " + d + ")"
+		a := vfC17GenQuery(r, depth-1, names, ids)
+		return vfC17Q{&query.Not{Child: a.q}, "(CNot " + a.coq + ")", "(not " + a.desc + ")",
+			func(rp *zoekt.Repository, d vfC17Doc) bool { return !a.ref(rp, d) }}
 	case c < 90:
-		q1, s1, d1 := vfC17GenQuery(r, depth-1, names)
-		q2, s2, d2 := vfC17GenQuery(r, depth-1, names)
-		return &query.And{Children: []query.Q{q1, q2}}, "(CAnd " + s1 + " " + s2 + ")", "(and " + d1 + " " + d2 + ")"
+		a := vfC17GenQuery(r, depth-1, names, ids)
+		b := vfC17GenQuery(r, depth-1, names, ids)
+		return vfC17Q{&query.And{Children: []query.Q{a.q, b.q}}, "(CAnd " + a.coq + " " + b.coq + ")", "(and " + a.desc + " " + b.desc + ")",
+			func(rp *zoekt.Repository, d vfC17Doc) bool { return a.ref(rp, d) && b.ref(rp, d) }}
 	default:
-		q1, s1, d1 := vfC17GenQuery(r, depth-1, names)
-		q2, s2, d2 := vfC17GenQuery(r, depth-1, names)
-		return &query.Or{Children: []query.Q{q1, q2}}, "(COr " + s1 + " " + s2 + ")", "(or " + d1 + " " + d2 + ")"
+		a := vfC17GenQuery(r, depth-1, names, ids)
+		b := vfC17GenQuery(r, depth-1, names, ids)
+		return vfC17Q{&query.Or{Children: []query.Q{a.q, b.q}}, "(COr " + a.coq + " " + b.coq + ")", "(or " + a.desc + " " + b.desc + ")",
+			func(rp *zoekt.Repository, d vfC17Doc) bool { return a.ref(rp, d) || b.ref(rp, d) }}
 	}
-}
-
-type vfC17Q struct {
-	q    query.Q
-	coq  string
-	desc string
 }
 
 type vfC17Obs struct {
@@ -366,6 +535,9 @@ func TestVerifC17(t *testing.T) {
 				if r.Chance(15) {
 					c.Rank = uint16(200 + r.Intn(50))
 				}
+				if r.Chance(15) { // the sidecar's metadata is what Meta filters must see
+					c.Metadata = map[string]string{r.Pick(vfC17Fields): r.Pick(vfC17Vals)}
+				}
 				seeded = append(seeded, &c)
 			}
 			b, _ := json.Marshal(seeded)
@@ -388,16 +560,27 @@ func TestVerifC17(t *testing.T) {
 		for i := range tpl.repos {
 			names = append(names, tpl.repos[i].Name, fmt.Sprintf("renamed-%d", tpl.repos[i].ID))
 		}
+		var ids []uint32
+		for i := range tpl.repos {
+			ids = append(ids, tpl.repos[i].ID)
+		}
 		var qs []vfC17Q
-		for i := 0; i < 3; i++ {
-			q, s, d := vfC17GenQuery(r, 2, names)
-			qs = append(qs, vfC17Q{q, s, d})
+		var qd []string
+		for i := 0; i < 4; i++ {
+			var q vfC17Q
+			if i == 0 { // always one bare repository-level filter
+				q = vfC17RepoAtom(r, ids)
+			} else {
+				q = vfC17GenQuery(r, 2, names, ids)
+			}
+			qs = append(qs, q)
+			qd = append(qd, q.desc)
 		}
 
 		var history []map[string]any
 		replay := func() map[string]any {
 			return map[string]any{"template": tpl.desc, "embedded": vfC17ReposJSON(vfPtrs(tpl.repos), 0, false), "sidecar_seed": seedJSON,
-				"shard_missing": missing, "ops": history, "seed": vfSeed(), "case": ci}
+				"shard_missing": missing, "ops": history, "queries": qd, "seed": vfSeed(), "case": ci}
 		}
 
 		readMeta := func() ([]*zoekt.Repository, error) {
@@ -459,6 +642,22 @@ func TestVerifC17(t *testing.T) {
 						}
 					}
 					sort.Slice(o.found, func(i, j int) bool { return o.found[i] < o.found[j] })
+					// oracle: Search returns EXACTLY the documents of alive repositories at non-tombstoned paths that satisfy
+					// the query as written (reference evaluation q.ref on the effective metadata)
+					got := map[uint64]bool{}
+					for _, p := range o.found {
+						got[p] = true
+					}
+					for i, d := range tpl.docs {
+						e := eff[d.repo]
+						_, ft := e.FileTombstones[vfC17Files[d.file]]
+						want := !e.Tombstone && !ft && q.ref(e, d)
+						if want && !got[uint64(i)] {
+							vfOracleFail("search-exact:missing-doc", fmt.Sprintf("query %s does not return %s/%s although the repository is alive, the path not tombstoned and the query matches", q.desc, e.Name, vfC17Files[d.file]), replay())
+						} else if !want && got[uint64(i)] && !e.Tombstone && !ft {
+							vfOracleFail("search-exact:unexpected-doc", fmt.Sprintf("query %s returns %s/%s which does not satisfy it", q.desc, e.Name, vfC17Files[d.file]), replay())
+						}
+					}
 				}
 				rl, err := s.List(ctx, q.q, nil)
 				if err != nil {
@@ -469,6 +668,32 @@ func TestVerifC17(t *testing.T) {
 						o.listed = append(o.listed, uint64(e.Repository.ID))
 						if m := byID[e.Repository.ID]; m == nil || m.Tombstone {
 							vfOracleFail("hidden-list:repo", fmt.Sprintf("query %s lists tombstoned repository %s", q.desc, e.Repository.Name), replay())
+						}
+					}
+					// oracle: an alive repository with a visible document satisfying the query is listed; a listed repository has
+					// one, or has no visible document at all (then List depends on the Const(true) shortcut: known finding)
+					lst := map[uint32]bool{}
+					for _, e := range rl.Repos {
+						lst[e.Repository.ID] = true
+					}
+					for ri, e := range eff {
+						if e.Tombstone {
+							continue
+						}
+						visible, matching := 0, 0
+						for _, d := range tpl.docs {
+							if _, ft := e.FileTombstones[vfC17Files[d.file]]; d.repo == ri && !ft {
+								visible++
+								if q.ref(e, d) {
+									matching++
+								}
+							}
+						}
+						if matching > 0 && !lst[e.ID] {
+							vfOracleFail("list-exact:missing-repo", fmt.Sprintf("query %s does not list alive repository %s which has a visible matching document", q.desc, e.Name), replay())
+						}
+						if matching == 0 && visible > 0 && lst[e.ID] {
+							vfOracleFail("list-exact:unexpected-repo", fmt.Sprintf("query %s lists repository %s none of whose %d visible documents satisfies it", q.desc, e.Name, visible), replay())
 						}
 					}
 				}
@@ -600,6 +825,51 @@ func TestVerifC17(t *testing.T) {
 			if rerr == nil {
 				obs, qTerm = observe(after)
 			}
+			// ---- oracle: "affects only that repository" at the level of results — for every query the documents found in, and the
+			// listing of, every OTHER non-tombstoned repository are identical before and after the operation
+			if err == nil && rerr == nil && len(obs) == len(qs) && len(lastObs) == len(qs) && len(after) == len(eff) {
+				for qi := range qs {
+					for ri := range eff {
+						if eff[ri].ID == id || eff[ri].Tombstone || after[ri].Tombstone {
+							continue
+						}
+						proj := func(o vfC17Obs) (string, bool) {
+							var ds []uint64
+							for _, p := range o.found {
+								if tpl.docs[p].repo == ri {
+									ds = append(ds, p)
+								}
+							}
+							l := false
+							for _, x := range o.listed {
+								if x == uint64(eff[ri].ID) {
+									l = true
+								}
+							}
+							return fmt.Sprint(ds), l
+						}
+						fb, lb := proj(lastObs[qi])
+						fa, la := proj(obs[qi])
+						what := fmt.Sprintf("tombstone=%v on repository id %d changed the results of the untouched repository %s for query %s: ", flag, id, eff[ri].Name, qs[qi].desc)
+						if fb != fa {
+							vfOracleFail("others-results-changed:search", what+"documents found before "+fb+" after "+fa, replay())
+						}
+						if lb != la {
+							visible := 0
+							for _, d := range tpl.docs {
+								if _, ft := eff[ri].FileTombstones[vfC17Files[d.file]]; d.repo == ri && !ft {
+									visible++
+								}
+							}
+							key := "others-results-changed:list"
+							if visible == 0 {
+								key += ":repo-without-visible-documents"
+							}
+							vfOracleFail(key, what+fmt.Sprintf("listed before %v after %v", lb, la), replay())
+						}
+					}
+				}
+			}
 			cur := &opRec{id: id, flag: flag, fault: fault, ok: err == nil, before: eff, obsB: lastObs, side: string(side)}
 			if prev != nil && prev.ok && cur.ok && prev.fault == 0 && cur.fault == 0 && prev.id == id {
 				if prev.flag == flag && prev.side != cur.side {
@@ -644,10 +914,6 @@ func TestVerifC17(t *testing.T) {
 			classes = append(classes, "inverse")
 		}
 		coq := cTuple(shTerm, metaTerm, q0Term, cList(opTerms))
-		var qd []string
-		for _, q := range qs {
-			qd = append(qd, q.desc)
-		}
 		vfCase(coq, vfKey(tpl.path, seedJSON, history, qd), !missing && len(tpl.repos) >= 2 && nops >= 2, classes,
 			map[string]any{"template": tpl.desc, "sidecar_seed": seedJSON, "ops": history, "queries": qd})
 		os.RemoveAll(dir)
